@@ -177,3 +177,14 @@ func ghostAddThenRemove(idx *WorkspaceIndex, path string, fi *FileIndex) {
 func ghostAddOnly(idx *WorkspaceIndex, path string, fi *FileIndex) {
 	idx.addFileIndex(path, fi)
 }
+
+// The declared sets a workspace hands out (memoised getters; bodies not verified here). wsAcc / wsCom name "the
+// declared accounts / commodities of workspace w" so that callers can be required to pass exactly them on.
+//@ specfun wsAcc(w *Workspace) map[string]bool
+//@ specfun wsCom(w *Workspace) map[string]bool
+//@ trusted (*Workspace).GetDeclaredAccounts
+//@   ensures result == wsAcc(w)
+//@   modifies w.cachedAccounts
+//@ trusted (*Workspace).GetDeclaredCommodities
+//@   ensures result == wsCom(w)
+//@   modifies w.cachedCommodities
